@@ -618,12 +618,16 @@ class Pilot(object):
         else                            : states = state
 
 
+        # wait for the *earliest* of the given states - any later state
+        # implies that the earliest one was passed
+        check_state_val = min([rps._pilot_state_values[s] for s in states])
+
         if self.state in rps.FINAL:
 
             # we will never see another state progression.  Raise an error
             # (unless we waited for this)
             if self.state in states:
-                return
+                return self.state
 
             # FIXME: do we want a raise here, really?  This introduces a race,
             #        really, on application level
@@ -631,7 +635,8 @@ class Pilot(object):
             return self.state
 
         start_wait = time.time()
-        while self.state not in states:
+        while self.state not in rps.FINAL and \
+              rps._pilot_state_values[self.state] < check_state_val:
 
             time.sleep(0.1)
             if timeout and (timeout <= (time.time() - start_wait)):
